@@ -55,7 +55,7 @@ def describe(tier):
             "JSON: EVERY tree of E3 treex blocks (root value over {a,\",NUL}, all interval/children/grandchild combinations), plus structured families: every "
             "byte value 0..255 in a node value, awkward type/label strings (non-ASCII, quote, backslash, newline, '/', '>'), linear chains of depth 1..200, and every "
             "scan tree of the mix/net scan-level families. Oracle: tree_to_json is valid JSON whose objects carry type/value(hex)/obfuscation/start/end/children for "
-            "every node; json_to_tree(tree_to_json(t)) == t with correct parent links; for every tree with <= 6 nodes EVERY single-field mutation of EVERY node "
+            "every node; json_to_tree(tree_to_json(t)) == t with correct parent links; for every tree with <= 6 nodes EVERY single-field mutation of EVERY node (trees with <= 4 nodes also rebuilt from two Node subclasses, one with and one without __slots__) "
             "(type, value, obfuscation, start, end, child added/removed) and every re-nesting that keeps the pre-order sequence (children promoted to siblings, sibling nested under its predecessor) makes the trees unequal. CLI: main() driven in-process for ALL combinations of "
             "{file argument, stdin} x {default, --json, --replace} x {shipped keywords, --keywords fixture directory, --keywords non-directory} x 12 inputs, plus real "
             "`python -m multidecoder` subprocesses for each mode with the bytes supplied as regular file, symbolic link, relative path, path with blanks, named pipe, /dev/stdin, /proc/self/fd/0 and plain standard input. Oracle: --json == tree_to_json(Multidecoder(same registry).scan(bytes)); default = one line per "
@@ -119,7 +119,39 @@ def parents_ok(root):
     return True
 
 
-def check_json(rec, root, w, size, mutate=False):
+class ScoredNode(Node):
+    """A caller's Node subclass that adds a field the natural way for a slotted class."""
+
+    __slots__ = ("score",)
+
+
+class TaggedNode(Node):
+    """A caller's Node subclass without __slots__ (instances get a __dict__)."""
+
+
+def as_subclass(cls, n):
+    m = cls(n.type, n.value, n.obfuscation, n.start, n.end, children=[as_subclass(cls, c) for c in n.children])
+    if cls is ScoredNode:
+        m.score = 1
+    else:
+        m.tag = "t"
+    return m
+
+
+def _eq(rec, a, b, w, size):
+    """a == b, where raising counts as a finding of its own (equality of trees is total)."""
+    try:
+        return bool(a == b) and bool(b == a)
+    except Exception as e:  # noqa: BLE001
+        rec.violation("C20.eq.structural", f"eq-raises|{type(e).__name__}", w, f"comparing two trees raised {type(e).__name__}: {e}", size)
+        return False
+
+
+def check_json(rec, root, w, size, mutate=False, _sub=False):
+    if mutate and not _sub and len(trees.walk(root)) <= 3:
+        # the same tree built from instances of Node subclasses: equality stays structural, the JSON round trip still returns an equal tree
+        for cls in (ScoredNode, TaggedNode):
+            check_json(rec, as_subclass(cls, root), dict(w, node_class=cls.__name__), size, mutate=True, _sub=True)
     rec.count("evaluations")
     ok, text = rec.guard("C20.json.encode", w, size, jc.tree_to_json, root)
     if not ok:
@@ -143,7 +175,7 @@ def check_json(rec, root, w, size, mutate=False):
     rec.count("traces")
     nodes = trees.walk(root)
     rec.count("transitions", len(nodes) + 1)
-    if not isinstance(back, Node) or trees.tup(back) != trees.tup(root) or not (back == root):
+    if not isinstance(back, Node) or trees.tup(back) != trees.tup(root) or not _eq(rec, back, root, w, size):
         rec.violation("C20.json.roundtrip", "roundtrip-differs", w, f"json_to_tree(tree_to_json(t)) != t: {core.short(trees.tup(back) if isinstance(back, Node) else back, 200)}", size)
     elif not parents_ok(back):
         rec.violation("C20.json.parents", "decoded-parent-links", w, "decoded tree has wrong parent links", size)
@@ -152,14 +184,14 @@ def check_json(rec, root, w, size, mutate=False):
             for fld, alt in (("type", n.type + "x"), ("value", n.value + b"\x00"), ("obfuscation", n.obfuscation + "o"), ("start", n.start + 1), ("end", n.end + 1)):
                 old = getattr(n, fld)
                 setattr(n, fld, alt)
-                same = back == root
+                same = _eq(rec, back, root, w, size)
                 setattr(n, fld, old)
                 rec.count("transitions")
                 if same:
                     rec.violation("C20.eq.structural", f"eq-ignores-{fld}|{'root' if i == 0 else 'descendant'}", w,
                                   f"changing {fld} of node #{i} leaves the trees equal", size)
             n.children.append(Node("m", b"m"))
-            same = back == root
+            same = _eq(rec, back, root, w, size)
             n.children.pop()
             if same:
                 rec.violation("C20.eq.structural", f"eq-ignores-children|{'root' if i == 0 else 'descendant'}", w, f"adding a child to node #{i} leaves the trees equal", size)
@@ -169,7 +201,7 @@ def check_json(rec, root, w, size, mutate=False):
                 moved = c.children
                 c.children = []
                 n.children.extend(moved)  # root -> A -> B   becomes   root -> A, B
-                same = back == root
+                same = _eq(rec, back, root, w, size)
                 del n.children[-len(moved):]
                 c.children = moved
                 rec.count("transitions")
@@ -180,14 +212,14 @@ def check_json(rec, root, w, size, mutate=False):
                 a, b = n.children[-2], n.children[-1]
                 n.children.pop()
                 a.children.append(b)  # root -> A, B   becomes   root -> A -> B
-                same = back == root
+                same = _eq(rec, back, root, w, size)
                 a.children.pop()
                 n.children.append(b)
                 rec.count("transitions")
                 if same:
                     rec.violation("C20.eq.structural", f"eq-ignores-nesting|{'root' if i == 0 else 'descendant'}", w,
                                   f"nesting node #{i}'s last child under its previous sibling leaves the trees equal", size)
-        if not (back == root):
+        if not _eq(rec, back, root, w, size):
             rec.violation("C20.eq.structural", "eq-not-restored", w, "harness: tree not restored after mutation", size)
 
 
